@@ -33,16 +33,26 @@ def build_driver(tmp):
     return exe, ""
 
 
+class DriverCrash(Exception):
+    """the driver (i.e. the code of matlab.h it runs) died: a C18 violation, not a machinery failure"""
+    def __init__(self, rc, done, lines, stderr):
+        Exception.__init__(self, "rc=%s after %d of %d commands" % (rc, done, len(lines)))
+        self.rc, self.done, self.lines, self.stderr = rc, done, lines, stderr
+
+
 def run_driver(exe, lines):
     p = subprocess.run([exe], input=("\n".join(lines) + "\nQ\n").encode(), stdout=subprocess.PIPE, stderr=subprocess.PIPE, timeout=600)
     out = p.stdout.decode().split("\n")
     if p.returncode != 0 or len(out) < len(lines):
-        raise RuntimeError("driver failed rc=%d after %d of %d lines: %s" % (p.returncode, len(out), len(lines), p.stderr.decode()[-300:]))
+        raise DriverCrash(p.returncode, max(0, len(out) - 1), lines, p.stderr.decode("utf-8", "replace")[-300:])
     return out[:len(lines)]
 
 
 def _run_chunk(job):
-    return run_driver(*job)
+    try:
+        return run_driver(*job)
+    except DriverCrash as e:
+        return {"crash": {"rc": e.rc, "commands": e.lines[max(0, e.done - 6):e.done + 1], "stderr": e.stderr}}
 
 
 def boundary_values(rng, thorough):
@@ -153,6 +163,9 @@ def main():
         chunks = [scripts[k:k + 400] for k in range(0, len(scripts), 400)]
         outs_per_chunk = common.pmap(_run_chunk, [(exe, [ln for _l, lines, _e in ch for ln in lines]) for ch in chunks], chunksize=1)
         for ch, outs in zip(chunks, outs_per_chunk):
+            if isinstance(outs, dict):
+                rep.violation("runtime-header-crashes-on-a-handle-sequence", "", outs["crash"])
+                continue
             pos = 0
             for log, lines, expect in ch:
                 nh += 1
@@ -185,6 +198,12 @@ def main():
 if __name__ == "__main__":
     try:
         sys.exit(main())
+    except DriverCrash as e:
+        # conversions are driven in one batch: the batch died inside matlab.h
+        rep_ = common.Report(PID, "model_checking")
+        rep_.violation("runtime-header-crashes-on-a-conversion", "", {"rc": e.rc, "commands": e.lines[max(0, e.done - 6):e.done + 1],
+                                                                      "stderr": e.stderr})
+        sys.exit(rep_.finish())
     except (tlc.TLCError, proj.ProjectionError, RuntimeError) as e:
         print("MACHINERY FAILURE: %s" % e, file=sys.stderr)
         sys.exit(2)
